@@ -587,10 +587,10 @@ class StreamReader:
         return data
 
     def _read_nowait(self, n: int) -> bytes:
-        """Read not more than n bytes, or whole buffer if n == -1"""
+        """Read not more than n bytes, or whole buffer if n is negative"""
         self._timer.assert_timeout()
 
-        if n == -1:
+        if n < 0:
             # Drain only chunks present now; _read_nowait_chunk() can
             # re-entrantly resume_reading() and refill the buffer.
             count = len(self._buffer)
